@@ -722,6 +722,31 @@ def rule_R29_iter_copied(text, log):
 
 
 
+def rule_R30_and_then(text, log):
+    """`RES.and_then(|P| B)` -> `(match RES { Ok(P) => B, Err(vx_e) => Err(vx_e) })` (definition of Result::and_then; a receiver
+    that is not a Result makes the rewritten text ill-typed, which is reported as "outside the subset")"""
+    out = text
+    rx = re.compile(r'\.\s*and_then\s*\(\s*\|')
+    while True:
+        mask = code_mask(out)
+        mm = next((m for m in rx.finditer(out) if mask[m.start()]), None)
+        if not mm:
+            return out
+        op = out.index('(', mm.start())
+        cl = match_brace(out, mask, op)
+        clo = out[op + 1:cl].strip()
+        j = clo.index('|', 1)
+        pat = clo[1:j].strip()
+        body = clo[j + 1:].strip()
+        rs = _recv_start(out, mask, mm.start())
+        recv = out[rs:mm.start()]
+        new = '(match %s { Ok(%s) => %s, Err(vx_e) => Err(vx_e) })' % (recv, pat, body)
+        pad = '\n' * max(0, out[rs:cl + 1].count('\n') - new.count('\n'))
+        log.append(('R30', norm_ws(out[rs:cl + 1])[:120], norm_ws(new)[:160]))
+        out = out[:rs] + new + pad + out[cl + 1:]
+
+
+
 def rule_R5_labelled_for(text, log):
     """'l: for _ in 0..n { B }  ->  { let mut vx_i: usize = 0; 'l: while vx_i < n { vx_i += 1; B } }
     only for the shape `'l: for _ in 0..<ident> {` (counter unused)"""
@@ -753,6 +778,8 @@ R6_TABLE = [
     (r'\.map_or\(0, Bytes::len\)', '.vx_map_or_0_len()'),
     (r'\(\*cb\)\(', 'cb.vx_call('),
     (r'\|_\|', '|_vx0|'),
+    (r'\|\(\)\|', '|_vx_u: ()|'),
+    (r'\.(map_err|map)\(\s*([A-Z]\w*(?:::[A-Z]\w*)+)\s*\)', r'.\1(|vx_c| \2(vx_c))'),
     (r'\b([A-Za-z_][\w.]*)\s*\.map_or\(\s*([A-Za-z_][\w.]*)\s*,\s*\|val\|\s*cmp::min\(\s*\2\s*,\s*val\s*\)\s*\)', r'vx_min_opt(\2, \1)'),
     (r'([\w.]+(?:\([^()]*\))?(?:\.unwrap\(\))?)\.as_str\(\) != ([\w.]+)\.as_str\(\)', r'!vx_bstr_eq(\1.vx_b(), \2.vx_b())'),
     (r'(?<![\w.])topic\.is_empty\(\)', 'vx_str_is_empty(topic)'),
@@ -1212,7 +1239,7 @@ class Unit(object):
         self.lost_aids = []
         self.gone_fns = []
         self.late_hints = False
-        self.rules = set(['R1', 'R2', 'ATTR', 'R4', 'R5', 'R6', 'R10', 'R11', 'R14', 'R15', 'R17', 'R22', 'R23', 'R25', 'R26', 'R27', 'R28', 'R29'])
+        self.rules = set(['R1', 'R2', 'ATTR', 'R4', 'R5', 'R6', 'R10', 'R11', 'R14', 'R15', 'R17', 'R22', 'R23', 'R25', 'R26', 'R27', 'R28', 'R29', 'R30'])
         self.unit_props = []
         self.lemmas = []
         self.tmpl_fns = []          # hand-written exec/proof fns in template (name, props)
@@ -1290,6 +1317,8 @@ class Unit(object):
                 text = rule_R28_bitflags_or_assign(text, log)
             if 'R29' in self.rules:
                 text = rule_R29_iter_copied(text, log)
+            if 'R30' in self.rules:
+                text = rule_R30_and_then(text, log)
         self.last_guard_renames = [r[3] for r in log if len(r) > 3]
         for r in log:
             self.rule_log.append({'rule': r[0], 'before': r[1], 'after': r[2], 'where': ctx})
